@@ -39,7 +39,7 @@ add("C10", W, "exploration", "deterministic simulation: save and crash-restart e
     "Trusts numpy byte comparison of public arrays as 'exactly equal'.", "DESIGN.md §4 C10")
 add("C12", W, "exploration", "deterministic simulation: scheduler-chosen entry point vs single-add shadow under identical draws, byte-equal state after every event",
     "Each workload event enters through a PRNG-chosen entry point (add with multiplicity, update(list), update(dict), add_ngram, update_ngram) while a shadow sketch receives the canonical expansion as single add(key) calls; both consume the same placed draws; public state must be equal after every event (key bytes of zero-count heavy-hitter cells masked); sketch[key] == query(key).",
-    "Expansion semantics are taken from the statement (window rule, dict order).", "DESIGN.md §4 C12")
+    "Expansion semantics are taken from the statement (window rule, dict order). Multiplicities that cross the 32-bit ceiling are reached by lifting a key to just below it through one call applied identically to sketch and shadow.", "DESIGN.md §4 C12")
 add("C13", W, "exploration", "deterministic simulation: query events interleaved with adds/merges/restarts/views (cache hit and miss paths), oracle from tables and a freshly loaded copy",
     "Histories interleave add/merge/save/restart with query(k, t) events incl. immediate repeats with same/changed threshold and queries through attached views; each answer is checked: <= k pairs, distinct, sorted, count == hh[key] >= threshold, equals the top-k derived from the public tables, every added key above max(threshold,1) present for k=inf, and equal to the answer of HeavyHitters.load(save()).",
     "Total mass kept below 2^32 and thresholds <= 2^32-1 (the statement's space).", "DESIGN.md §4 C13")
@@ -47,7 +47,7 @@ add("C15", W, "exploration", "deterministic simulation: fault kind 'config-skewe
     "Inside ordinary histories a peer differing in exactly one parameter (width, depth, counter type incl. all ordered type pairs, max_count, num_reserved | p, seed | width, depth, max_key_len), both non-empty, is offered for merging in one or both directions: every attempt must raise TypeError and leave both operands byte-identical. Agreeing peers built differently (other phi, factory, loaded from file, shared) must merge.",
     "-", "DESIGN.md §4 C15")
 add("C16", W, "exploration", "deterministic simulation: operations routed through owner/attached views vs in-memory shadow, view/owner deletion orders, /dev/shm listing",
-    "Primary owns a real POSIX segment, 0-2 views attach via attach_existing_shm or helpers.attach_shared_memory; every workload/merge event is routed through a PRNG-chosen party; after every event owner, every view and an in-memory shadow must expose byte-equal state and equal answers; drop_view leaves owner and segment intact; drop_owner (views first or owner first) removes the segment name. Odd byte sizes (unaligned bookkeeping) are reached and counted.",
+    "Primary owns a real POSIX segment, 0-2 views attach via attach_existing_shm or helpers.attach_shared_memory (some views are themselves shared-memory sketches that own a block of their own, which must be released when they are dropped); every workload/merge event is routed through a PRNG-chosen party; after every event owner, every view and an in-memory shadow must expose byte-equal state and equal answers; drop_view leaves owner and segment intact; drop_owner (views first or owner first) removes the segment name. Odd byte sizes (unaligned bookkeeping) are reached and counted.",
     "Linux shared-memory semantics (exact segment size).", "DESIGN.md §4 C16")
 add("C18", W, "exploration", "deterministic simulation: histories that reach and pass the ceilings (adds, merges, restarts), monotonicity/sticky-ceiling invariants; constructor clause probed per event",
     "Multiplicities adjacent to 2^32-1 and small log max_count make ceilings reachable; around every add/merge no count-min estimate may decrease (so a ceiling value stays), a heavy-hitter key alone in its cells equals min(truth, 2^32-1); ctor events draw (max_count, num_reserved) over the whole range: the constructor must raise ValueError or decode its maximum counter to max_count within 1e-6 relative.",
@@ -59,7 +59,7 @@ add("C19", P, "exploration", "deterministic simulation of parallel_add with faul
     "Fault plans over the same simulated parallel_add (statement-level pre-emption and stalls included): any subset of <= 5 items raises one of 27 exception types (before/mid/after its updates) -> must return, contain every other item's full contribution (lower bounds), n_records counts successful items only; one worker dies with an os._exit-like code or by signal (-9/-15/-11) inside a callback, after taking its k-th item, or at the poison pill -> parallel_add must terminate with an exception; returning a result or hanging (deadlock / livelock detection with step and simulated-time caps) is the violation. Two real spawned runs (callback raising; worker os._exit(7)) anchor the stub in the quick tier, three in the thorough tier.",
     "Worker death is modelled as a BaseException with non-zero exit code (stack unwinds, unlike os._exit).", "DESIGN.md §4 C19")
 add("C20", D, "fault_enumeration", "fault enumeration: every crash offset (strict prefix) of every saved file through every loader route",
-    "Exhaustive over the stated fault space: for each of the five classes x shapes x contents (incl. keys containing zip signatures) every strict prefix 0..len-1 of the bytes save() wrote is put on disk and offered to the class loader and (count-min) the module-level load, shared_memory False and sampled True: each must raise; the complete file must load to the saved sketch.",
+    "Exhaustive over the stated fault space: for each of the five classes x shapes x contents (incl. keys containing zip signatures) every strict prefix 0..len-1 of the bytes save() wrote is put on disk and offered to the class loader and (count-min) the module-level load, shared_memory False and sampled True: each must raise; the complete file must load to the saved sketch. In addition three files above 1 MiB (six in the thorough tier) whose crash points are sampled, not enumerated (both ends byte by byte, member boundaries, powers of two, 300 seeded random offsets; every loader, shared_memory False and True): the exhaustive claim covers the small files only.",
     "Fault model is the statement's (prefix truncation); intermediate write-log states are reported as NOTE only.", "DESIGN.md §4 C20")
 
 NA = {
